@@ -24,6 +24,7 @@ REF_ROWS = {  # (downgrade prevention, independent updates, signature verificati
 
 
 def run(ctx):
+    generic.kwargs_keys_are_dests(ctx, "C12-D4c keyword reads are option destinations", "suit_generator.cmd_mpi")
     R = ctx.report
     _u32 = [0, 1, 16, 0x0E1EE000, 0x7FFFFFFF, 0x80000000, 0x80000001, 0xFFFFFF00]
     for _q in ("MpiGenerator.generate", "MpiGenerator.merge"):
